@@ -113,7 +113,7 @@ def bind_sym(tgt: ast.AST, val: Any, env: Dict[str, Any]) -> None:
 
 def run(ctx: Ctx, rep: Report) -> None:
     rep.rule("C16-R1", "table() splits at len(oid), bulktable() at len(oid)+1 (entry vs table addressing)", floor=1)
-    rep.rule("C16-R2", "column = arc[base], row index = remaining arcs joined by '.', stored under '0'", floor=2)
+    rep.rule("C16-R2", "column = arc[base], row index = remaining arcs joined by '.', stored under '0'", floor=1)
     rep.rule("C16-R3", "rows accumulate: get-or-create per row id, then the cell store", floor=1)
     rep.rule("C16-R4", "both variants consume the single-root (bulk) walk completely and in order", floor=2)
     rep.rule("C16-R5", "the wrapper keeps '0' and pythonises the other cells", floor=1)
@@ -190,6 +190,14 @@ def run(ctx: Ctx, rep: Report) -> None:
                     vb = bound.get("varbinds")
                     okc = vb is not None and norm(vb) == lst and not loop.orelse
         if not okc:
+            # [x async for x in <the walk>] handed to tablify (directly or through a local)
+            vb = bound.get("varbinds")
+            comp = ctx.defs(meth).expand(vb) if vb is not None else None
+            if isinstance(comp, ast.ListComp) and len(comp.generators) == 1:
+                gen = comp.generators[0]
+                src = ctx.defs(meth).expand(gen.iter)
+                okc = not gen.ifs and norm(comp.elt) == norm(gen.target) and any(norm(src) == norm(wc) for wc in walk_calls)
+        if not okc:
             okc = drains_through_helper(ctx, meth, bound.get("varbinds"), walk_calls)
         rep.check(okc, "C16-R4", meth.site(), f"{meth.name}: every binding the walk yields is collected, in order, and handed to tablify", key=f"{meth.key}|collects-all")
     from . import c02
@@ -201,95 +209,10 @@ def run(ctx: Ctx, rep: Report) -> None:
     check_v1_end(ctx, rep)
 
     # ------------------------------------------------------------ R2 / R3 (tablify)
-    nvar = "num_base_nodes"
-    loops = [n for n in own_nodes(tab.node) if isinstance(n, ast.For)]
-    if nvar not in tab.params or len(loops) != 1:
-        rep.undecided("C16-R2", tab.site(), "tablify has one loop over the bindings and a num_base_nodes parameter", f"{len(loops)} loops")
-        return
-    loop = loops[0]
-    if not (isinstance(loop.target, ast.Tuple) and len(loop.target.elts) == 2 and all(isinstance(e, ast.Name) for e in loop.target.elts)):
-        rep.undecided("C16-R2", tab.site(loop), "loop unpacks (oid, value)", norm(loop.target))
-        return
-    oid_var, val_var = loop.target.elts[0].id, loop.target.elts[1].id
-    # take the branch for a given base-node count
-    env: Dict[str, Any] = {}
-    stores: List[Tuple[ast.AST, ast.AST, ast.stmt]] = []
-    creates: List[ast.stmt] = []
+    from .walkeval import eval_tablify
 
-    def exec_block(stmts: List[ast.stmt]) -> None:
-        for stmt in stmts:
-            if isinstance(stmt, ast.If):
-                test = norm(stmt.test)
-                if test == nvar:
-                    exec_block(stmt.body)
-                elif test == f"not {nvar}":
-                    exec_block(stmt.orelse)
-                else:
-                    exec_block(stmt.body)
-                    exec_block(stmt.orelse)
-            elif isinstance(stmt, ast.Assign):
-                if len(stmt.targets) == 1 and isinstance(stmt.targets[0], ast.Subscript):
-                    stores.append((stmt.targets[0], stmt.value, stmt))
-                else:
-                    val = sym(stmt.value, env, oid_var, nvar)
-                    for tgt in stmt.targets:
-                        bind_sym(tgt, val, env)
-            elif isinstance(stmt, ast.AnnAssign) and stmt.value is not None:
-                bind_sym(stmt.target, sym(stmt.value, env, oid_var, nvar), env)
-
-    exec_block(loop.body)
-    site = tab.site(loop)
-    # cell store: <row>[str(col)] = value
-    cell = [(t, v, s) for t, v, s in stores if norm(v) == val_var]
-    defs = ctx.defs(tab)
-    if len(cell) != 1:
-        rep.violated("C16-R2", site, "exactly one cell store `row[column] = value` per binding", f"{[norm(s) for _, _, s in stores]}", key=f"{tab.key}|cell-store")
-        return
-    tgt, _, cstmt = cell[0]
-    col = sym(tgt.slice, env, oid_var, nvar)
-    rep.check(col == ("str", ("elem", Lin(0, 1))), "C16-R2", tab.site(cstmt), "the column key is str(arc[num_base_nodes])", f"column key = {col}", key=f"{tab.key}|column-arc")
-    # the row object: obtained by get-or-create keyed by the row id
-    row_name = norm(tgt.value)
-    row_def = None
-    for node in loop.body:
-        for sub in ast.walk(node):
-            if isinstance(sub, ast.Assign) and any(isinstance(t, ast.Name) and t.id == row_name for t in sub.targets):
-                row_def = sub
-    row_key = None
-    init_dict = None
-    accumulate = None
-    if row_def is not None and isinstance(row_def.value, ast.Call) and isinstance(row_def.value.func, ast.Attribute):
-        c = row_def.value
-        if c.func.attr == "setdefault" and len(c.args) == 2:
-            row_key = sym(c.args[0], env, oid_var, nvar)
-            init_expr = c.args[1]
-            if isinstance(init_expr, ast.Name):
-                cand = [v for v in defs.all_values(init_expr.id)]
-                init_expr = cand[0] if len(cand) == 1 else init_expr
-            init_dict = init_expr
-            accumulate = True
-    elif row_def is not None and isinstance(row_def.value, ast.Subscript):
-        # rows[row_id] after an `if row_id not in rows: rows[row_id] = {...}` guard
-        row_key = sym(row_def.value.slice, env, oid_var, nvar)
-        guards = [n for n in loop.body if isinstance(n, ast.If) and "not in" in norm(n.test)]
-        for g in guards:
-            for sub in g.body:
-                if isinstance(sub, ast.Assign) and isinstance(sub.targets[0], ast.Subscript) and isinstance(sub.value, ast.Dict):
-                    init_dict = sub.value
-                    accumulate = True
-    want_row = ("joined", Lin(1, 1))
-    rep.check(row_key == want_row, "C16-R2", tab.site(row_def) if row_def is not None else site, "the row is looked up by '.'.join(str(arc) for arc in arcs[num_base_nodes+1:]) - the complete index", f"row key = {row_key}", key=f"{tab.key}|row-key")
-    rep.check(bool(accumulate), "C16-R3", tab.site(row_def) if row_def is not None else site, "the row is obtained by get-or-create (an existing row is reused for further columns)", f"row definition: {norm(row_def) if row_def is not None else None}", key=f"{tab.key}|row-accumulation")
-    idx_ok = False
-    if isinstance(init_dict, ast.Dict) and len(init_dict.keys) == 1 and isinstance(init_dict.keys[0], ast.Constant) and init_dict.keys[0].value == "0":
-        idx_ok = sym(init_dict.values[0], env, oid_var, nvar) == want_row
-    rep.check(idx_ok, "C16-R2", site, "a new row starts as {'0': <complete row index>}", f"initial row = {norm(init_dict) if init_dict is not None else None}", key=f"{tab.key}|index-under-0")
-    # column and row slices are complementary: arc[N] and arcs[N+1:] cover arcs[N:] exactly once
-    rep.check(col == ("str", ("elem", Lin(0, 1))) and row_key == want_row, "C16-R2", site, "column arc and row arcs partition the arcs after the base (no arc dropped or shared)", f"column {col}, row {row_key}", key=f"{tab.key}|partition")
-    rets = [n for n in own_nodes(tab.node) if isinstance(n, ast.Return) and n.value is not None]
-    rows_name = norm(row_def.value.func.value) if row_def is not None and isinstance(row_def.value, ast.Call) and isinstance(row_def.value.func, ast.Attribute) else None
-    okr = len(rets) == 1 and rows_name is not None and norm(rets[0].value) in (f"list({rows_name}.values())", f"[*{rows_name}.values()]")
-    rep.check(okr, "C16-R3", tab.site(), "tablify returns every accumulated row exactly once", f"{[norm(r.value) for r in rets]}", key=f"{tab.key}|returns-rows")
+    if not eval_tablify(ctx, rep, tab, "C16-R2", "C16-R3"):
+        tablify_structurally(ctx, rep, tab)
 
     # ------------------------------------------------------------ R5
     wrapper = ctx.wrapper()
@@ -394,3 +317,98 @@ def check_v1_end(ctx: Ctx, rep: Report, rule: str = "C16-R8") -> None:
             if quiet:
                 break
         rep.check(quiet, rule, w.site(call), f"the continuation request ends the walk quietly when the agent answers noSuchName (construct() builds {produced.name})", f"no handler around the request catches {produced.name} without re-raising", key=f"{w.key}|noSuchName-ends-walk")
+
+
+def tablify_structurally(ctx: Ctx, rep: Report, tab: FuncInfo) -> None:
+    """Fallback: the symbolic reading of tablify's loop (column = arc[base], row = arcs[base+1:])."""
+    # ------------------------------------------------------------ R2 / R3 (tablify)
+    nvar = "num_base_nodes"
+    loops = [n for n in own_nodes(tab.node) if isinstance(n, ast.For)]
+    if nvar not in tab.params or len(loops) != 1:
+        rep.undecided("C16-R2", tab.site(), "tablify has one loop over the bindings and a num_base_nodes parameter", f"{len(loops)} loops")
+        return
+    loop = loops[0]
+    if not (isinstance(loop.target, ast.Tuple) and len(loop.target.elts) == 2 and all(isinstance(e, ast.Name) for e in loop.target.elts)):
+        rep.undecided("C16-R2", tab.site(loop), "loop unpacks (oid, value)", norm(loop.target))
+        return
+    oid_var, val_var = loop.target.elts[0].id, loop.target.elts[1].id
+    # take the branch for a given base-node count
+    env: Dict[str, Any] = {}
+    stores: List[Tuple[ast.AST, ast.AST, ast.stmt]] = []
+    creates: List[ast.stmt] = []
+
+    def exec_block(stmts: List[ast.stmt]) -> None:
+        for stmt in stmts:
+            if isinstance(stmt, ast.If):
+                test = norm(stmt.test)
+                if test == nvar:
+                    exec_block(stmt.body)
+                elif test == f"not {nvar}":
+                    exec_block(stmt.orelse)
+                else:
+                    exec_block(stmt.body)
+                    exec_block(stmt.orelse)
+            elif isinstance(stmt, ast.Assign):
+                if len(stmt.targets) == 1 and isinstance(stmt.targets[0], ast.Subscript):
+                    stores.append((stmt.targets[0], stmt.value, stmt))
+                else:
+                    val = sym(stmt.value, env, oid_var, nvar)
+                    for tgt in stmt.targets:
+                        bind_sym(tgt, val, env)
+            elif isinstance(stmt, ast.AnnAssign) and stmt.value is not None:
+                bind_sym(stmt.target, sym(stmt.value, env, oid_var, nvar), env)
+
+    exec_block(loop.body)
+    site = tab.site(loop)
+    # cell store: <row>[str(col)] = value
+    cell = [(t, v, s) for t, v, s in stores if norm(v) == val_var]
+    defs = ctx.defs(tab)
+    if len(cell) != 1:
+        rep.violated("C16-R2", site, "exactly one cell store `row[column] = value` per binding", f"{[norm(s) for _, _, s in stores]}", key=f"{tab.key}|cell-store")
+        return
+    tgt, _, cstmt = cell[0]
+    col = sym(tgt.slice, env, oid_var, nvar)
+    rep.check(col == ("str", ("elem", Lin(0, 1))), "C16-R2", tab.site(cstmt), "the column key is str(arc[num_base_nodes])", f"column key = {col}", key=f"{tab.key}|column-arc")
+    # the row object: obtained by get-or-create keyed by the row id
+    row_name = norm(tgt.value)
+    row_def = None
+    for node in loop.body:
+        for sub in ast.walk(node):
+            if isinstance(sub, ast.Assign) and any(isinstance(t, ast.Name) and t.id == row_name for t in sub.targets):
+                row_def = sub
+    row_key = None
+    init_dict = None
+    accumulate = None
+    if row_def is not None and isinstance(row_def.value, ast.Call) and isinstance(row_def.value.func, ast.Attribute):
+        c = row_def.value
+        if c.func.attr == "setdefault" and len(c.args) == 2:
+            row_key = sym(c.args[0], env, oid_var, nvar)
+            init_expr = c.args[1]
+            if isinstance(init_expr, ast.Name):
+                cand = [v for v in defs.all_values(init_expr.id)]
+                init_expr = cand[0] if len(cand) == 1 else init_expr
+            init_dict = init_expr
+            accumulate = True
+    elif row_def is not None and isinstance(row_def.value, ast.Subscript):
+        # rows[row_id] after an `if row_id not in rows: rows[row_id] = {...}` guard
+        row_key = sym(row_def.value.slice, env, oid_var, nvar)
+        guards = [n for n in loop.body if isinstance(n, ast.If) and "not in" in norm(n.test)]
+        for g in guards:
+            for sub in g.body:
+                if isinstance(sub, ast.Assign) and isinstance(sub.targets[0], ast.Subscript) and isinstance(sub.value, ast.Dict):
+                    init_dict = sub.value
+                    accumulate = True
+    want_row = ("joined", Lin(1, 1))
+    rep.check(row_key == want_row, "C16-R2", tab.site(row_def) if row_def is not None else site, "the row is looked up by '.'.join(str(arc) for arc in arcs[num_base_nodes+1:]) - the complete index", f"row key = {row_key}", key=f"{tab.key}|row-key")
+    rep.check(bool(accumulate), "C16-R3", tab.site(row_def) if row_def is not None else site, "the row is obtained by get-or-create (an existing row is reused for further columns)", f"row definition: {norm(row_def) if row_def is not None else None}", key=f"{tab.key}|row-accumulation")
+    idx_ok = False
+    if isinstance(init_dict, ast.Dict) and len(init_dict.keys) == 1 and isinstance(init_dict.keys[0], ast.Constant) and init_dict.keys[0].value == "0":
+        idx_ok = sym(init_dict.values[0], env, oid_var, nvar) == want_row
+    rep.check(idx_ok, "C16-R2", site, "a new row starts as {'0': <complete row index>}", f"initial row = {norm(init_dict) if init_dict is not None else None}", key=f"{tab.key}|index-under-0")
+    # column and row slices are complementary: arc[N] and arcs[N+1:] cover arcs[N:] exactly once
+    rep.check(col == ("str", ("elem", Lin(0, 1))) and row_key == want_row, "C16-R2", site, "column arc and row arcs partition the arcs after the base (no arc dropped or shared)", f"column {col}, row {row_key}", key=f"{tab.key}|partition")
+    rets = [n for n in own_nodes(tab.node) if isinstance(n, ast.Return) and n.value is not None]
+    rows_name = norm(row_def.value.func.value) if row_def is not None and isinstance(row_def.value, ast.Call) and isinstance(row_def.value.func, ast.Attribute) else None
+    okr = len(rets) == 1 and rows_name is not None and norm(rets[0].value) in (f"list({rows_name}.values())", f"[*{rows_name}.values()]")
+    rep.check(okr, "C16-R3", tab.site(), "tablify returns every accumulated row exactly once", f"{[norm(r.value) for r in rets]}", key=f"{tab.key}|returns-rows")
+
